@@ -1,2 +1,7 @@
+import QuicProofs.Bridge.Reassembler
 import QuicProofs.Bridge.VarInt
+import QuicProofs.Lemmas.Reassembly
+import QuicProofs.Lemmas.RefBuf
+import QuicProofs.Props.C01Reassembly
 import QuicProofs.Props.C05VarInt
+import QuicProofs.Props.C16Reassembler
